@@ -116,7 +116,7 @@ def rule_G3(ctx):
 
         def edge_ok(n, c, cs):
             g = m.funcs[c[0]]
-            if g.name in ('__new__', '__init__', '_create_from_bitstype', '_initialise'):
+            if g.name in ('__new__', '__init__', '_initialise') or g.name in m.promoters:
                 return False     # construction of operand objects: the stored bit order of every route is E5's business
             return not _lsb0_refusal(g)       # code behind an lsb0 refusal runs in msb0 only
         parent = ctx.reachable(roots, edge_filter=edge_ok)
